@@ -15,9 +15,13 @@ import vlib
 
 FNAME = "F"
 FINDING_CHAIN = "chaiscript_parser.hpp:left-deep-chain"
+FINDING_EXP = "chaiscript_parser.hpp:Container_Arg_List:exponential-backtracking"
+CONTAINER_NEST_CAP = 10      # `[`*n 1 `]`*n costs about 3^n steps (known finding FINDING_EXP): generated container nesting stays below
+MAX_INPUT = 48000            # generated inputs are capped (the nesting families at depth 5000 are cut to this many bytes' worth)
 FLOAT_TOK = re.compile(r"k=c,(float|double|ldouble):f(32|64|80):([0-9a-f]+)$")
 MODEL_POW_ULP = 4       # spellings with an exponent go through libm's pow (see C16)
-MAX_MODEL_BYTES = 2600  # the extracted model indexes the buffer as a list: quadratic; longer inputs are oracle-only (except the prelude, thorough)
+MAX_MODEL_BYTES = 2600  # the extracted model indexes the buffer as a list: quadratic; longer inputs are oracle-only (except the prelude, thorough,
+                        # and the nesting families, which end in a depth error after a few hundred calls)
 
 
 def hx(b):
@@ -127,6 +131,10 @@ def nest_cases(tier):
             "map": "[1:" * n + "2" + "]" * n, "range": "[1.." * n + "2" + "]" * n, "for": "for (;;) { " * n + "}" * n, "arglist": "f(1," * n + "2" + ")" * n,
         }
         for k, v in fam.items():
+            if k in ("bracket", "map", "range") and n > CONTAINER_NEST_CAP:
+                continue
+            if len(v) > MAX_INPUT:
+                continue
             out.append(("nest-%s-%d" % (k, n), v.encode("latin-1")))
     # left-deep chains are built iteratively (no recursion): bounded here, see the known finding
     for n in (1, 2, 100, 1000, 2000):
@@ -324,12 +332,14 @@ def judge(data, impl, spec):
         l, c = f[2].split(":")
         if f[3] not in (hx(FNAME), hx("instr eval"), "-") or ((l, c) == ("0", "0")) != (f[3] == "-"):
             return "the eval_error does not carry the file name given to parse"
-        if spec.startswith("TRIVIA"):
+        if spec.startswith("TRIVIA "):
             return "an input made of white space / comments only must parse (to an empty program)"
         return None
     m = ROOT.match(impl)
     if not m:
         return "unreadable observation"
+    if spec == "BADCASE":       # too long for the extracted specification: only death / foreign exceptions are judged
+        return None
     kind, el, ec, has_child = m.group(1), m.group(5), m.group(6), m.group(7)
     sp = spec.split(" ")
     if kind == "Noop":
@@ -365,10 +375,10 @@ ASAN_ENV = {"ASAN_OPTIONS": "detect_leaks=0:abort_on_error=0:allocator_may_retur
 
 def run(c, cases, hbin, mbin, sbin, with_prelude):
     lines = ["raw %s %s" % (hx(b), hx(FNAME)) for _, b, _ in cases]
-    small = [i for i, (_, b, _) in enumerate(cases) if len(b) <= MAX_MODEL_BYTES]
+    small = [i for i, (k, b, _) in enumerate(cases) if len(b) <= MAX_MODEL_BYTES or k.startswith("nest-")]
     with ThreadPoolExecutor(max_workers=3) as ex:
         fi = ex.submit(lambda: parh(hbin, lines))
-        fs = ex.submit(lambda: par_lines(sbin, ["trivia " + hx(b) for _, b, _ in cases], 2000))
+        fs = ex.submit(lambda: par_lines(sbin, ["trivia " + (hx(b) if len(b) <= 4 * MAX_INPUT else "zz") for _, b, _ in cases], 1000))
         fm = ex.submit(lambda: par_lines(mbin, [lines[i] for i in small], 60)) if mbin else None
         fp = None
         impl, erri = fi.result()
@@ -412,6 +422,9 @@ def run(c, cases, hbin, mbin, sbin, with_prelude):
         why = judge(b, i, sp)
         if why:
             if fkey is not None:
+                if fkey == FINDING_EXP and not (i.startswith("SIG(27)") and mbin and explain_exponential(c, mbin)):
+                    c.extra.setdefault("known_finding_not_reproduced", []).append(fkey)
+                    continue
                 c.fail(why, {"kind": kind, "input_len": len(b), "impl": i[:300]}, finding_key=fkey)
                 continue
             nfail += 1
@@ -435,6 +448,24 @@ def parh(hbin, lines):
         err += e[-3000:]
         out += o
     return out, err
+
+
+def explain_exponential(c, mbin):
+    """the known finding FINDING_EXP is a statement about the MECHANISM: the model's count of grammar-function invocations on
+    `[`*n 1 `]`*n obeys t(n+1) = 3 t(n) + const exactly, hence t(16) >= 3^16 / const: the implementation's time-out on n = 16 is explained"""
+    ns = list(range(3, 9))
+    _, out, _ = vlib.run_lines(mbin, ["ticks " + hx("[" * n + "1" + "]" * n) for n in ns], timeout=600)
+    t = [int(o.split()[1]) if o.startswith("TICKS") and o.endswith("ok") else None for o in out]
+    ok = all(x is not None for x in t) and len({t[i + 1] - 3 * t[i] for i in range(len(t) - 1)}) == 1
+    t16 = None
+    if ok:
+        k = t[1] - 3 * t[0]
+        t16 = t[-1]
+        for _ in range(ns[-1], 16):
+            t16 = 3 * t16 + k
+    c.extra["exponential_backtracking"] = {"model_ticks": dict(zip(ns, t)), "recurrence_t(n+1)=3t(n)+k_exact": ok, "extrapolated_ticks_n16": t16,
+                                           "at_least_3^16/8": bool(ok and t16 * 8 >= 3 ** 16)}
+    return bool(ok and t16 * 8 >= 3 ** 16)
 
 
 def check(tier, seed):
